@@ -279,6 +279,9 @@ func canonGraph(g *resolve.Graph) string {
 
 var leaked atomic.Int32
 
+// outcome tallies of B5 comparisons (evidence notes only)
+var b5Same, b5BothTimeout, b5BothErr, b5Differ, b5Skipped atomic.Int64
+
 // resolveWith runs the real npm resolver under a deadline.
 func resolveWith(cl resolve.Client, root resolve.VersionKey, d time.Duration) string {
 	type out struct{ s string }
@@ -316,6 +319,7 @@ func resolveWith(cl resolve.Client, root resolve.VersionKey, d time.Duration) st
 func compareResolutions(u universe, rootName, rootVer string) (applicable, same bool, api, local string) {
 	lc, ok := loadLocal(u)
 	if !ok {
+		b5Skipped.Add(1)
 		return false, true, "", ""
 	}
 	root := resolve.VersionKey{PackageKey: resolve.PackageKey{System: resolve.NPM, Name: rootName}, VersionType: resolve.Concrete, Version: rootVer}
@@ -329,6 +333,16 @@ func compareResolutions(u universe, rootName, rootVer string) (applicable, same 
 		// one side hit the deadline: machine load or a genuine one-sided hang; retry longer.
 		lc, _ = loadLocal(u)
 		api, local = run(6 * time.Second)
+	}
+	switch {
+	case api != local:
+		b5Differ.Add(1)
+	case api == "timeout":
+		b5BothTimeout.Add(1)
+	case api == "err":
+		b5BothErr.Add(1)
+	default:
+		b5Same.Add(1)
 	}
 	return true, api == local, api, local
 }
